@@ -510,6 +510,80 @@ func runC16(r *Run) {
 		wildcardOffsetsOnTheirString(r, r.Fn(csrfPkg, "New"), "New:wildcard-position-on-the-same-string")
 	})
 
+	r.rule("R10", "an origin is accepted only by comparison: originMatchesHost / refererMatchesHost answer nil only behind a string equality (also slices.Contains), a wildcard match, or a same-package predicate that itself answers true only behind those (E1)", func() {
+		var acceptEdges func(f *ssa.Function, depth int) map[edge]bool
+		isStr := func(v ssa.Value) bool {
+			b, ok := v.Type().Underlying().(*types.Basic)
+			return ok && b.Info()&types.IsString != 0
+		}
+		var isAcceptCall func(c *ssa.Call, depth int) bool
+		isAcceptCall = func(c *ssa.Call, depth int) bool {
+			n := calleeName(&c.Call)
+			if strings.HasSuffix(n, "csrf.subdomain).match") || strings.HasPrefix(n, "slices.Contains") || n == "strings.EqualFold" {
+				return true
+			}
+			g := c.Call.StaticCallee()
+			if g == nil || depth > 2 || len(g.Blocks) == 0 || g.Pkg == nil || c.Parent().Pkg != g.Pkg || g.Signature.Results().Len() != 1 {
+				return false
+			}
+			if b, ok := g.Signature.Results().At(0).Type().Underlying().(*types.Basic); !ok || b.Kind() != types.Bool {
+				return false
+			}
+			return trueOnlyBehind(g, acceptEdges(g, depth+1), func(v ssa.Value) bool {
+				if bo, ok := v.(*ssa.BinOp); ok && bo.Op == token.EQL && isStr(bo.X) {
+					return true
+				}
+				cc, ok := v.(*ssa.Call)
+				return ok && isAcceptCall(cc, depth+1)
+			})
+		}
+		acceptEdges = func(f *ssa.Function, depth int) map[edge]bool {
+			cut := map[edge]bool{}
+			for _, br := range branchesInOne(f) {
+				if br.Info.Op == token.EQL || br.Info.Op == token.NEQ {
+					if isStr(br.Info.Root) && !constIsNil(br.Info.Const) {
+						if sl, ok := br.slotFor(token.EQL); ok {
+							cut[edge{br.If.Block(), sl}] = true
+						}
+					}
+				}
+			}
+			for _, b := range f.Blocks {
+				for _, in := range b.Instrs {
+					if c, ok := in.(*ssa.Call); ok && isAcceptCall(c, depth) {
+						for _, e := range trueEdgesOf(f, c) {
+							cut[e] = true
+						}
+					}
+				}
+			}
+			return cut
+		}
+		for _, fn := range []string{"originMatchesHost", "refererMatchesHost"} {
+			f := r.Fn(csrfPkg, fn)
+			withoutHelpers(func() {
+				cut := acceptEdges(f, 0)
+				isNilRet := func(in ssa.Instruction) bool {
+					ret, ok := in.(*ssa.Return)
+					if !ok || ret.Parent() != f || len(ret.Results) != 1 {
+						return false
+					}
+					v := stripValue(ret.Results[0])
+					if u, ok := v.(*ssa.UnOp); ok && u.Op == token.MUL {
+						if _, isGlobal := u.X.(*ssa.Global); isGlobal {
+							return false // a package-level Err… value
+						}
+					}
+					c := asConst(v)
+					return c == nil || constIsNil(c) // anything else may be nil
+				}
+				path, hit := reach(entryOf(f), isNilRet, cut, nil)
+				r.check(hit == nil, fn+":accepts-only-by-comparison", r.fpos(f), fmt.Sprintf("with the %d comparison edges removed no accepting return is reachable", len(cut)),
+					"the check can accept without an exact comparison of scheme and host (or a trusted-origin match): a look-alike such as https://example.com.attacker.net passes a prefix test against https://example.com: "+pathString(r.P, path))
+			})
+		}
+	})
+
 	r.rule("R9", "consuming or deleting a token fails closed: an error of the token store on the delete path is handed up, and the handler does not run when a single-use token could not be consumed (E1, error discipline)", func() {
 		isFallible := func(c callSite) bool {
 			if c.Common.IsInvoke() && c.Common.Method.Name() == "Delete" && strings.HasSuffix(c.Common.Value.Type().String(), "fiber/v3.Storage") {
